@@ -107,6 +107,23 @@ def vanish_case(rng):
             'tolexp': rng.choice([20, 3]), 'x': x, 'repeat': 1}
 
 
+def dup_case(rng):
+    nr, nc = rng.randrange(1, 5), rng.randrange(1, 5)
+    fd = rnd_matrix(rng, nr, nc, 0.7)
+    nz = [[r, c] for r in range(nr) for c in range(nc) if fd[r][c] != 0] or [[0, 0]]
+    pat = list(nz)
+    for _ in range(rng.randrange(1, 4)):      # repeat some positions (up to three copies)
+        pat.append(list(rng.choice(nz)))
+    rng.shuffle(pat)
+    an = [list(row) for row in fd]
+    if rng.random() < 0.4:
+        r, c = rng.choice(nz)
+        an[r][c] += rng.choice([-4, 2, 6])
+    return {'kind': 'dup', 'fd': fd, 'an': an, 'pat': pat, 'method': rng.choice(['fd', 'cs']),
+            'form': rng.choice(['forward', 'backward', 'central']), 'stepexps': [rng.randrange(0, 5)],
+            'tolexp': rng.choice([20, 3]), 'x': [rng.randrange(-4, 5) for _ in range(nc)]}
+
+
 def step_of(c, k):
     e = c['ov'] if c.get('ov') is not None else c['stepexps'][k]
     return Fraction(1, 2 ** e)
@@ -155,8 +172,9 @@ class C13(Spec):
             'central, cs} x steps 2^0..2^-4 x tolerances, linear and quadratic (step-dependent approximation), single steps and '
             'step lists, per-variable step overrides, constant declared partials without compute_partials, histories '
             'compute_totals / check_partials / check_partials / compute_totals, checked through the real check_partials, '
-            'plus check_totals in fwd and rev mode; a case is non-trivial when distinct')
-    assumptions = ['declared patterns have no duplicate (row, col) entries',
+            'coo patterns with duplicate entries, plus check_totals in fwd and rev mode; a case is non-trivial when distinct')
+    assumptions = ['duplicate (row, col) entries only for scipy coo patterns (rows/cols duplicates are rejected by '
+                   'declare_partials; csr/csc constructors sum them)',
                    'directional and matrix-free checks are outside the model (oracle not applied to them)']
 
     def gen(self, tier, rng):
@@ -170,6 +188,8 @@ class C13(Spec):
             cases.append(partial_case(rng))
         for _ in range(40 if quick else 600):
             cases.append(vanish_case(rng))
+        for _ in range(40 if quick else 600):
+            cases.append(dup_case(rng))
         for _ in range(80 if quick else 1200):
             cases.append(totals_case(rng))
         return cases
@@ -183,6 +203,8 @@ class C13(Spec):
             return '(VL [vmatQ %s; vmatQ %s; run_errors %s %s %s %s])' % (
                 qm(c['an']), qm(c['fd']), qm(c['an']), qm(c['fd']), atol, atol)
         nr, nc = len(c['fd']), len(c['fd'][0])
+        if c['kind'] == 'dup':
+            return '(run_dup true %s %d %d %s)' % (entries(c['pat']), nr, nc, qm(c['fd']))
         mask = [[False] * nc for _ in range(nr)]
         for r, k in c['pat']:
             mask[r][k] = True
